@@ -6,14 +6,16 @@ from .absint import Obj, TOP, Interp, ClassRef, CONST_KIND
 
 def fields_of(cls):
     c = getattr(ast, cls, None)
-    return list(getattr(c, '_fields', ())) if c is not None else []
+    return list(getattr(c, '_fields', ())) if c is not None else None
 
 
 def children(o):
     out = []
     if not isinstance(o, Obj):
         return out
-    names = fields_of(o.cls) or [k for k in o.attrs if not k.startswith('_') and k not in ('namespace', 'bindings')]
+    names = fields_of(o.cls)
+    if names is None:
+        names = [k for k in o.attrs if not k.startswith('_') and k not in ('namespace', 'bindings')]
     for f in names:
         v = o.attrs.get(f)
         if isinstance(v, Obj):
@@ -24,7 +26,9 @@ def children(o):
 
 
 def iter_fields(o):
-    names = fields_of(o.cls) or [k for k in o.attrs if not k.startswith('_')]
+    names = fields_of(o.cls)
+    if names is None:
+        names = [k for k in o.attrs if not k.startswith('_') and k not in ('namespace', 'bindings')]
     return [(f, o.attrs[f]) for f in names if f in o.attrs]
 
 
